@@ -12,7 +12,7 @@ from ..case import b2s, s2b
 from ..gen import http as G
 from ..refhttp import request as REQ
 from ..runner import derive_seed, hyp_run
-from ..world import observe
+from ..world import observe, adj_default
 
 PID = "C01"
 LEVEL = "exploration"
@@ -30,8 +30,6 @@ ASSUMPTIONS = [
 ]
 
 ERR = (400, 413, 431, 501)
-DEFAULT_HDR = 262144
-DEFAULT_BODY = 1073741824
 
 
 def expected_env(it):
@@ -76,8 +74,8 @@ def compare(items, o, adj):
     def fail(sig, detail):
         fails.append({"sig": "C01/" + sig, "detail": detail})
 
-    max_h = adj.get("max_request_header_size", DEFAULT_HDR)
-    max_b = adj.get("max_request_body_size", DEFAULT_BODY)
+    max_h = adj.get("max_request_header_size", adj_default("max_request_header_size"))
+    max_b = adj.get("max_request_body_size", adj_default("max_request_body_size"))
     finals = [r for r in o.responses if not r.interim]
     if o.problem and not (finals and not finals[-1].complete and o.closed):
         # unparseable wire is C03's business, but it makes this comparison meaningless
@@ -253,7 +251,7 @@ ADJ_CHOICES = [
 
 def case_strategy():
     def build(stream, adj, follower):
-        if len(stream) > 1500 and adj.get("recv_bytes", 8192) < 64:
+        if len(stream) > 1500 and adj.get("recv_bytes", adj_default("recv_bytes")) < 64:
             adj = dict(adj, recv_bytes=64)
         return {"stream": stream + (G.FOLLOWER if follower else ""), "adj": adj}
 
